@@ -4,6 +4,7 @@ package zz_verif
 
 import (
 	idp "berty.tech/go-ipfs-log/identityprovider"
+	"berty.tech/go-ipfs-log/internal/vx"
 	"berty.tech/go-ipfs-log/keystore"
 	"github.com/ipfs/go-datastore"
 )
@@ -11,17 +12,39 @@ import (
 // realIdentities: the repository's own signing path - keystore over a map datastore, OrbitDB identity
 // provider, secp256k1 keys (Dolev-Yao model under the engine, real crypto natively).
 func realIdentities(names ...string) ([]*idp.Identity, *keystore.Keystore) {
-	ks, err := keystore.NewKeystore(datastore.NewMapDatastore())
-	if err != nil {
-		panic(err)
-	}
-	var out []*idp.Identity
-	for _, n := range names {
-		id, err := idp.CreateIdentity(ctx, &idp.CreateIdentityOptions{Keystore: ks, ID: n, Type: "orbitdb"})
+	for attempt := 0; ; attempt++ {
+		ks, err := keystore.NewKeystore(datastore.NewMapDatastore())
 		if err != nil {
 			panic(err)
 		}
-		out = append(out, id)
+		var out []*idp.Identity
+		var keys []string
+		var vals [][]byte
+		for i, n := range names {
+			id, err := idp.CreateIdentity(ctx, &idp.CreateIdentityOptions{Keystore: ks, ID: n, Type: "orbitdb"})
+			if err != nil {
+				panic(err)
+			}
+			out = append(out, id)
+			// the engine names the published (uncompressed) key of the i-th identity by the creation number of its key
+			keys = append(keys, "pubuncomp("+itoa(2*(i+1))+",)")
+			vals = append(vals, id.PublicKey)
+		}
+		// natively keys are random: re-draw until their byte order is the one the solver chose (tie-breaks on clock ids)
+		if vx.OrderOK(keys, vals) || attempt > 500 {
+			return out, ks
+		}
 	}
-	return out, ks
+}
+
+func itoa(n int) string {
+	if n == 0 {
+		return "0"
+	}
+	s := ""
+	for n > 0 {
+		s = string(rune('0'+n%10)) + s
+		n /= 10
+	}
+	return s
 }
